@@ -42,6 +42,11 @@ CLAIMED = {
         technique="Coq theorems on the model's external-gate path (calls not named in E are treated as by plain unroll; kept calls have the stated shape; the call is still validated) + group-level meaning of a kept inverse + correspondence over all subsets E and a substitution oracle on real output",
         text="Theorems (visitor model): a gate call whose name is not in E is processed exactly as with E empty; every statement a kept call emits is a call of the same gate with literal parameters, resolved single qubits per broadcast group and `inv @` iff the collapsed inverse flag is set; if the plain expansion of the call fails (custom or library) the kept call fails with the same error; over any group of circuit meanings a kept `inv @ g` denotes what plain unroll() expands it to. Tie: model vs real unroll(external_gates=E) for every subset E of the gate names of three structured programs and random programs with random E (modifiers x broadcast x nesting x subroutines); independent oracle on the real output: putting the gate definitions back and unrolling the kept program gives the plain unroll() of the source, and E never changes acceptance.",
         ref="DESIGN.md §6/C18", note=LANG_NOTE + "The global statement 'unroll(E) p = unroll p when no reachable call names a gate in E' is not proved as one theorem (it needs the full interpreter induction); it rests on the per-call theorem and the correspondence. Kept programs that contain a qubit-restricted gphase or an empty if-block are not re-loaded by the substitution oracle (C03 known findings)."),
+    "C03": dict(engine="coq-lang",
+        technique="Coq theorem by induction over the whole visitor model (every statement unroll() emits is flat, for every program, fuel and state) + re-load / re-validate / fixpoint clauses checked on real output",
+        text="Theorem (unroll_flat, with visit_flat for every fuel and every intermediate visit and subroutine call): for every OpenQASM 2 or 3 program, with or without external gates, every statement of the model's unroll output is an include, a register declaration with literal size, a gate call without modifiers (or the single inv of a kept external gate) with literal parameters on literally indexed single qubits, a single-bit measurement, a reset, a single-qubit barrier, a gphase with literal angle, or a conditional on reg[i]==literal / reg==literal whose blocks are flat; proved by induction over the interpreter (40 visitor functions, the expression evaluator, subroutine calls, the fuel knot). Tie: model vs real unroll() on random full-feature programs, every library gate, expressions used as parameters; on the real output the harness checks flatness again, dumps()->loads() parses to the same statements, validate() accepts, and unrolling again changes neither statements nor text.",
+        ref="DESIGN.md §6/C03",
+        note=LANG_NOTE + "gphase operands are not constrained by the flatness predicate (inside gate bodies they are literal, lemma gphase_operands_literal). The parse-back, re-validate and fixpoint clauses involve the third-party openqasm3 printer/parser and are established on explored programs only (differential testing, labelled so). Three known findings (qubit-restricted gphase, empty if-block, xx_plus_yy emitting sxdg) are pinned by the repository's tests and replayed on every run."),
     "C02": dict(
         engine="coq-lang",
         technique="Coq theorems on the visitor model's operand resolution + exact correspondence with pyqasm on enumerated index/broadcast/alias/subroutine shapes",
